@@ -35,28 +35,28 @@ CLAIMS = {
         note="Trusted: frozen numpy/scipy table (eigh family vs general eig). Partial claim.",
         ref="2/C05"),
     "C06": dict(
-        technique="provenance (role) tags NORTH/WEST flowed from producer to every consumer by def-use",
-        text="Decides role consistency of the two degeneracy maps from Bath to every consumer (R1) and that classes are equality classes of the full key tuple with an absolute tolerance (R2). Numerical equality of reduced and full runs is not decided.",
+        technique="provenance (role) tags NORTH/WEST flowed from producer to every consumer by def-use; late-binding analysis of closures created in loops (free variables vs names the loop rebinds, fate of the closure)",
+        text="Decides role consistency of the two degeneracy maps from Bath to every consumer (R1) and that classes are equality classes of the full key tuple with an absolute tolerance (R2). Numerical equality of reduced and full runs is not decided. R4: no influence closure kept beyond a loop iteration reads a variable the loop rebinds (each species uses its own bath's degeneracy positions).",
         note="Trusted: def-use engine; numpy indexing semantics for a[idx] / outer. Partial claim.",
         ref="2/C06"),
     "C07": dict(
-        technique="interprocedural def-use (argument reachability), co-selection by same mask, interval analysis of slice bounds, predicate pairing, loop-carried dependence on the CFG",
-        text="Decides the alignment bookkeeping of multi-time correlations: one time step for axes and dynamics (V1), values and write-back indices selected together (V2), no wrap-around in interval parsing (V3), anti-ordering swap-in/swap-out under one predicate (V4), NaN-initialised result written only at scheduled indices (V5), complementary ordering predicates (V6), operator-side table (V7), no working value carried between schedule entries (V8). Exactness of the values is not decided.",
+        technique="interprocedural def-use (argument reachability), co-selection by same mask, interval analysis of slice bounds, predicate pairing, loop-carried dependence on the CFG; composition-order rule of class Control including list slots folded at read time",
+        text="Decides the alignment bookkeeping of multi-time correlations: one time step for axes and dynamics (V1), values and write-back indices selected together (V2), no wrap-around in interval parsing (V3), anti-ordering swap-in/swap-out under one predicate (V4), NaN-initialised result written only at scheduled indices (V5), complementary ordering predicates (V6), operator-side table (V7), no working value carried between schedule entries (V8). Exactness of the values is not decided. V10: operators of a multi-time correlation that fall on the same step act in insertion order (Control composes with the new operation on the left, also when a slot is kept as a list and folded).",
         note="Trusted: Python slice semantics table; def-use engine. Partial claim.",
         ref="2/C07"),
     "C08": dict(
-        technique="polynomial forms of half-step indices; event-sequence extraction and mirror (reversal) check of the backward pass",
-        text="Decides the index maps of the half-step parameters/derivatives (H1), that the backward pass is the reversed, transposed mirror of the forward step incl. environment order (H2) forward-loop sibling agreement (H3), derivative provenance: a differentiation operator applied to the forward half-step propagator (H4), memo-key completeness in ParameterizedSystem (H5). Equality with finite differences is not decided.",
+        technique="polynomial forms of half-step indices; event-sequence extraction and mirror (reversal) check of the backward pass; parity of leg transpositions per call site under the path condition of the flags passed",
+        text="Decides the index maps of the half-step parameters/derivatives (H1), that the backward pass is the reversed, transposed mirror of the forward step incl. environment order (H2) forward-loop sibling agreement (H3), derivative provenance: a differentiation operator applied to the forward half-step propagator (H4), memo-key completeness in ParameterizedSystem (H5). Equality with finite differences is not decided. H7: in the backward pass every environment MPO is transposed exactly once per leg pair (swapped copies plus flag-dependent leg roles of _apply_pt_mpos), in the forward pass not at all.",
         note="Trusted: forms engine; loop-direction idiom table. Partial claim.",
         ref="2/C08"),
     "C09": dict(
-        technique="step-offset tags of times and state lists at every field_eom call; linear-form comparison of the Heun update; call-graph reachability of the shared network step; must-redefine on every loop path (sign analysis of the loop variable)",
-        text="Decides time/state alignment of both Runge-Kutta stages (F1), the Heun form in both implementations (F2) that both back ends share one network-stepping routine (F3), and that the values carried between steps are renewed on every path of every later iteration (F4). Numerical agreement is not decided.",
+        technique="step-offset tags of times and state lists at every field_eom call; linear-form comparison of the Heun update; call-graph reachability of the shared network step; must-redefine on every loop path (sign analysis of the loop variable); late-binding analysis of closures created in loops",
+        text="Decides time/state alignment of both Runge-Kutta stages (F1), the Heun form in both implementations (F2) that both back ends share one network-stepping routine (F3), and that the values carried between steps are renewed on every path of every later iteration (F4). Numerical agreement is not decided. F6: the per-system callables of a mean-field computation are not late-bound to the last system of a loop.",
         note="Trusted: forms engine; step-tag facts listed in evidence. Partial claim.",
         ref="2/C09"),
     "C10": dict(
-        technique="import resolvability by locating and parsing the imported package; effect/ordering rule on the parallel layer; dispatch sibling agreement; value-preservation analysis of the augmented MPS constructor",
-        text="Decides that every execution mode resolves its names (I1), that a parallel layer's result is independent of completion order (I2: snapshot before submit, pure worker, ordered consumption, write-back in caller after join) that all modes reach the same worker and write-back (I3), site weights (I5), Trotter layer coverage (I6), and the count of bond matrices / traced site tensors between two recorded sites as polynomials in the site indices (I7). Exactness against dense propagation is not decided. I8: a chain state saved with get_augmented_mps() and handed back is stored as given.",
+        technique="import resolvability by locating and parsing the imported package; effect/ordering rule on the parallel layer; dispatch sibling agreement; value-preservation analysis of the augmented MPS constructor; guarded-cache rule over the PT-TEBD back end",
+        text="Decides that every execution mode resolves its names (I1), that a parallel layer's result is independent of completion order (I2: snapshot before submit, pure worker, ordered consumption, write-back in caller after join) that all modes reach the same worker and write-back (I3), site weights (I5), Trotter layer coverage (I6), and the count of bond matrices / traced site tensors between two recorded sites as polynomials in the site indices (I7). Exactness against dense propagation is not decided. I8: a chain state saved with get_augmented_mps() and handed back is stored as given. I9: traces cached by an early return are reset by every method that changes the chain tensors.",
         note="Trusted: concurrent.futures semantics table (Executor.map preserves submission order; `with` joins). Partial claim.",
         ref="2/C10"),
     "C11": dict(
@@ -85,8 +85,8 @@ CLAIMS = {
         note="Trusted: forms engine; role vocabulary. Floating-point non-associativity not decided.",
         ref="2/C15"),
     "C16": dict(
-        technique="writer/reader key-table agreement; field coverage of export/import; nullness round-trip of setter/getter pairs; sibling agreement of the two get_mpo_tensor / PtTempo constructions",
-        text="Decides table agreement of HDF5 keys (X1), field coverage of export and import (X2), None round-trip (X3), shape/data index pairing (X4), raw-vs-transformed discipline as an index-contraction signature of both get_mpo_tensor (X5), agreement of the two PtTempo constructions (X6), dtype table (X7). Bitwise equality through HDF5 is not decided.",
+        technique="writer/reader key-table agreement; field coverage of export/import; nullness round-trip of setter/getter pairs; sibling agreement of the two get_mpo_tensor / PtTempo constructions; value-preservation analysis of export / import and of the HDF5 helpers",
+        text="Decides table agreement of HDF5 keys (X1), field coverage of export and import (X2), None round-trip (X3), shape/data index pairing (X4), raw-vs-transformed discipline as an index-contraction signature of both get_mpo_tensor (X5), agreement of the two PtTempo constructions (X6), dtype table (X7). Bitwise equality through HDF5 is not decided. X9: export and import move tensors through value-preserving conversions only.",
         note="Trusted: h5py dataset API table. Partial claim.",
         ref="2/C16"),
     "C17": dict(
@@ -105,8 +105,8 @@ CLAIMS = {
         note="Trusted: threading.Timer / Executor context-manager semantics table.",
         ref="2/C19"),
     "C20": dict(
-        technique="effect analysis: transitive self-attribute reads of memoised methods; closure-capture analysis vs shallow copy; array provenance for .shape stores; mutated-parameter summaries; ownership analysis of in-place updates; lru_cache over internally mutated state; closure-shared memos",
-        text="Decides the structural ways state leaks here: stale memoisation (A1), closures outliving a copy (A2/A3), layout-dependent in-place reshape (A4), writes to caller data (A5), shared mutable defaults (A6), process-global state (A6b), memo keys and memo invalidation (A7, A7b), copies kept and handed out (A8). A9: no function updates in place an object it does not own (attributes of others, container elements, results of callables that hand out stored arrays). A1 also covers private state rewritten by other methods; A7 covers memos kept on self by closures.",
+        technique="effect analysis: transitive self-attribute reads of memoised methods; closure-capture analysis vs shallow copy; array provenance for .shape stores; mutated-parameter summaries; ownership analysis of in-place updates; lru_cache over internally mutated state; closure-shared memos; late-binding analysis of closures created in loops",
+        text="Decides the structural ways state leaks here: stale memoisation (A1), closures outliving a copy (A2/A3), layout-dependent in-place reshape (A4), writes to caller data (A5), shared mutable defaults (A6), process-global state (A6b), memo keys and memo invalidation (A7, A7b), copies kept and handed out (A8). A9: no function updates in place an object it does not own (attributes of others, container elements, results of callables that hand out stored arrays). A1 also covers private state rewritten by other methods; A7 covers memos kept on self by closures. A10: no closure kept beyond a loop iteration reads a variable the loop rebinds.",
         note="Trusted: numpy copy/view/layout table; functools.lru_cache key semantics. Partial claim.",
         ref="2/C20"),
 }
